@@ -6,7 +6,7 @@ out, k, caught = sys.argv[1], sys.argv[2], sys.argv[3]
 note = sys.argv[4] if len(sys.argv) > 4 else ""
 m = json.load(open(os.path.join(out, f"m{k}.json")))
 pid = m["property"]
-dst = f"/verif/seeded/{pid}-m{k}"
+dst = f"/verif/seeded/{pid}-{os.environ.get('SEED_TAG', '')}m{k}"
 os.makedirs(dst, exist_ok=True)
 shutil.copy(os.path.join(out, f"m{k}.diff"), os.path.join(dst, "patch.diff"))
 shutil.copy(os.path.join(out, f"m{k}_demo.py"), os.path.join(dst, "demo.py"))
